@@ -179,6 +179,21 @@ let run_hist hfn zh (tys : string) (vals : string) (route : string) (ops : strin
       if show_mout rh <> show_mout rt then failwith ("HM and TM diverge at step " ^ string_of_int k);
       add key (show_mout rh); add ("spec_" ^ key) (show_vout rv) in
     (match e with
+     | L [A "rootwrite"; A h; A i] ->
+       (* RootView.SetBacking / UnmarshalText: the handle holds a new value; a Root view has no
+          hook, so nothing else changes *)
+       let hi = int_of_string h in
+       (match List.nth_opt m.tm.m_handles hi with
+        | Some td when td.h_ty = TRoot ->
+          let b = byte_of_int ((int_of_string ("0x" ^ i)) mod 250 + 1) in
+          let c = List.init 32 (fun _ -> b) in
+          let (a, hp) = hm_alloc m.hm.m_store (Leaf c) in
+          let upd l x = List.mapi (fun k y -> if k = hi then x else y) l in
+          m.hm <- { m_store = hp; m_handles = upd m.hm.m_handles { h_ty = TRoot; h_back = a; h_hook = None } };
+          m.tm <- { m.tm with m_handles = upd m.tm.m_handles { h_ty = TRoot; h_back = Leaf c; h_hook = None } };
+          m.vm <- upd m.vm { vh_ty = TRoot; vh_val = VBytes c; vh_hook = None };
+          add key "OK"; add ("spec_" ^ key) "OK"
+        | _ -> add key "ERR"; add ("spec_" ^ key) "ERR")
      | L [A "iter"; A h] ->
        (* Iter(): the element count is fixed when the iterator is made; Next() is Get(i), i++ *)
        let hi = int_of_string h in
